@@ -9,6 +9,7 @@ std::vector<ShapeEntry> shapes_1()
   using u128 = unsigned __int128;
   return {
     FMTCAT_SHAPE_W("i32", 1, V<int>),
+    ShapeEntry{"no_args", &Stmt<>::run, 1u, nullptr}, // literal text only
     FMTCAT_SHAPE_W("i16", 1, V<short>),
     FMTCAT_SHAPE_W("i8", 1, V<signed char>),
     FMTCAT_SHAPE_W("long", 1, V<long>),
